@@ -506,6 +506,22 @@ func (p *Path) assume(c *Term, why string) {
 }
 
 // goValue converts a concrete interpreter value into a Go value for text formatting.
+// unrenderedMark starts the placeholder text of a fmt argument the engine cannot render. Such text is
+// fine in messages nobody inspects; comparing it would be unsound, so string comparisons refuse it.
+const unrenderedMark = "<\x00unrendered:"
+
+func constBytes(es []Value) ([]byte, bool) {
+	out := make([]byte, len(es))
+	for i, e := range es {
+		t, ok := e.(*Term)
+		if !ok || !t.IsConst() || t.W != 8 {
+			return nil, false
+		}
+		out[i] = byte(t.Val)
+	}
+	return out, true
+}
+
 func (p *Path) goValue(v Value) interface{} {
 	switch x := v.(type) {
 	case IfaceV:
@@ -514,7 +530,7 @@ func (p *Path) goValue(v Value) interface{} {
 		}
 		if t, ok := x.v.(*Term); ok {
 			if !t.IsConst() {
-				return "<sym>"
+				return unrenderedMark + "sym>"
 			}
 			if w, signed, ok := isInt(x.t); ok {
 				if signed {
@@ -533,16 +549,36 @@ func (p *Path) goValue(v Value) interface{} {
 			if s.Concrete() {
 				return s.s
 			}
-			return "<symstr>"
+			return unrenderedMark + "symstr>"
 		}
-		return "<" + x.t.String() + ">"
+		// concrete byte arrays and slices render exactly
+		switch y := x.v.(type) {
+		case *ArrayV:
+			if bs, ok := constBytes(y.e); ok {
+				return bs
+			}
+		case SliceV:
+			if sl, ok := x.t.Underlying().(*types.Slice); ok {
+				if b, ok := sl.Elem().Underlying().(*types.Basic); ok && b.Kind() == types.Uint8 && !y.isNil {
+					ts := p.sliceBytes(y)
+					vs := make([]Value, len(ts))
+					for i, t := range ts {
+						vs[i] = t
+					}
+					if bs, ok := constBytes(vs); ok {
+						return bs
+					}
+				}
+			}
+		}
+		return unrenderedMark + x.t.String() + ">"
 	case StrV:
 		if x.Concrete() {
 			return x.s
 		}
-		return "<symstr>"
+		return unrenderedMark + "symstr>"
 	}
-	return "<?>"
+	return unrenderedMark + "?>"
 }
 
 // sprintfExact formats with exact results for symbolic strings and byte slices under %s / %v (the
